@@ -153,6 +153,10 @@ func c15R1(c *Ctx) {
 							if _, isCell := u.Addr.(*ssa.Alloc); isCell {
 								continue // local variable / named result: followed through Aliases
 							}
+							if fa, isFA := u.Addr.(*ssa.FieldAddr); isFA && c13IsNamed(fa.X.Type(), "io", "LimitedReader") && c13FieldNameOf(fa.X.Type(), fa.Field) == "R" {
+								c.OK(RB, fmt.Sprintf("%s|limited-by:io.LimitedReader", FnName(f)), u.Pos(), "the body is consumed only through an io.LimitedReader literal")
+								continue
+							}
 							c.Undecided(RB, key+"store", u.Pos(), "the response body is stored into a field or element; its later uses are not followed")
 						}
 						continue
@@ -684,11 +688,57 @@ func c15Int64Param(f *ssa.Function) *ssa.Parameter {
 	return nil
 }
 
+// c15LimitedReaders: the size-limited readers constructed in fn, as
+// (value returned / used, wrapped reader, limit, position): calls of
+// io.LimitReader(r, n) and literals &io.LimitedReader{R: r, N: n}.
+type c15Limited struct {
+	Val    ssa.Value
+	Reader ssa.Value
+	Limit  ssa.Value
+	At     ssa.Instruction
+}
+
+func c15LimitedReaders(fn *ssa.Function) []c15Limited {
+	var out []c15Limited
+	for _, lr := range CallsTo(fn, "io.LimitReader") {
+		out = append(out, c15Limited{lr.Value(), lr.Common().Args[0], lr.Common().Args[1], lr.(ssa.Instruction)})
+	}
+	AllInstrs(fn, func(in ssa.Instruction) {
+		al, ok := in.(*ssa.Alloc)
+		if !ok || !c13IsNamed(al.Type(), "io", "LimitedReader") {
+			return
+		}
+		l := c15Limited{Val: al, At: al}
+		for _, r := range *al.Referrers() {
+			fa, ok := r.(*ssa.FieldAddr)
+			if !ok {
+				continue
+			}
+			for _, r2 := range *fa.Referrers() {
+				st, ok := r2.(*ssa.Store)
+				if !ok {
+					continue
+				}
+				switch c13FieldNameOf(fa.X.Type(), fa.Field) {
+				case "R":
+					l.Reader, l.At = st.Val, st
+				case "N":
+					l.Limit = st.Val
+				}
+			}
+		}
+		if l.Reader != nil && l.Limit != nil {
+			out = append(out, l)
+		}
+	})
+	return out
+}
+
 func c15LimiterBody(c *Ctx, rule string, L *ssa.Function) {
-	calls := CallsTo(L, "io.LimitReader")
+	lrs := c15LimitedReaders(L)
 	key := FnName(L) + "|limit-is-n-or-default"
-	if len(calls) == 0 {
-		c.Violation(rule, key, L.Pos(), "the limit helper does not wrap its reader in io.LimitReader")
+	if len(lrs) == 0 {
+		c.Violation(rule, key, L.Pos(), "the limit helper does not wrap its reader in io.LimitReader / io.LimitedReader")
 		return
 	}
 	isLR := map[ssa.Value]bool{}
@@ -696,20 +746,22 @@ func c15LimiterBody(c *Ctx, rule string, L *ssa.Function) {
 	np := c15Int64Param(L)
 	pos := c15PosEdges(L, Aliases(np))
 	sawDefault := false
-	for _, lr := range calls {
-		isLR[lr.Value()] = true
-		if lr.Common().Args[0] != ssa.Value(L.Params[0]) {
-			ok, why = false, "io.LimitReader is not applied to the helper's own reader"
+	ownReader := Aliases(L.Params[0])
+	for _, lr := range lrs {
+		for a := range Aliases(lr.Val) {
+			isLR[a] = true
 		}
-		lim := lr.Common().Args[1]
-		if lim == ssa.Value(np) {
+		if !ownReader[lr.Reader] && !ownReader[strip(lr.Reader)] {
+			ok, why = false, "the limited reader does not wrap the helper's own reader"
+		}
+		if lr.Limit == ssa.Value(np) {
 			// the given limit as is: only where it is known positive
-			if !MustPass(lr.(ssa.Instruction), newCut().Edges(pos...)) {
+			if !MustPass(lr.At, newCut().Edges(pos...)) {
 				ok, why = false, "the given limit is used on a path where it is not known to be positive (the zero value would mean `read nothing`)"
 			}
 			continue
 		}
-		if o, w := c15LimitValueOK(L, lim, np); !o {
+		if o, w := c15LimitValueOK(L, lr.Limit, np); !o {
 			ok, why = false, w
 		} else {
 			sawDefault = true
@@ -719,11 +771,11 @@ func c15LimiterBody(c *Ctx, rule string, L *ssa.Function) {
 		ok, why = false, "no default limit is substituted"
 	}
 	for _, a := range RetAtoms(L, 0) {
-		if !isLR[a.Val] {
-			ok, why = false, "the helper does not return io.LimitReader of its own reader on every path"
+		if !isLR[a.Val] && !isLR[strip(a.Val)] {
+			ok, why = false, "the helper does not return the limited reader of its own reader on every path"
 		}
 	}
-	c.Check(rule, key, calls[0].Pos(), ok, ifelse(ok, "returns io.LimitReader(r, n>0 ? n : default)", why))
+	c.Check(rule, key, lrs[0].At.Pos(), ok, ifelse(ok, "returns io.LimitReader(r, n>0 ? n : default)", why))
 }
 
 func c15SizeLimiterBody(c *Ctx, rule string, S *ssa.Function) {
@@ -1429,11 +1481,34 @@ func c15R4(c *Ctx) {
 	const R4 = "C15.R4.oci-list-tags"
 	c.Expect(R4, 3)
 	// role: function of content/oci with a *resolver.Memory parameter and a func([]string) error parameter
+	// role: the function of content/oci that ranges over the tag map (map[string]Descriptor: the resolver's dump,
+	// obtained inside or handed in) and calls its func([]string) error parameter
 	cands := c13FuncsWhere(c.P, "content/oci", func(f *ssa.Function) bool {
-		return f.Parent() == nil && c13HasParam(f, "internal/resolver", "Memory") && len(Calls(f, func(n string) bool { return strings.HasPrefix(n, "dyn:param:") })) > 0
+		if f.Parent() != nil {
+			return false
+		}
+		calls := false
+		for _, call := range Calls(f, func(n string) bool { return strings.HasPrefix(n, "dyn:param:") }) {
+			if args := call.Common().Args; len(args) == 1 {
+				if sl, ok := types.Unalias(args[0].Type()).Underlying().(*types.Slice); ok && types.Identical(sl.Elem(), types.Typ[types.String]) {
+					calls = true
+				}
+			}
+		}
+		if !calls {
+			return false
+		}
+		for _, l := range Loops(f) {
+			if ranged, _, _, _, ok := l.RangeMap(); ok {
+				if m, isMap := types.Unalias(ranged.Type()).Underlying().(*types.Map); isMap && c13IsNamed(m.Elem(), c13PkgOCI, "Descriptor") {
+					return true
+				}
+			}
+		}
+		return false
 	})
 	if len(cands) != 1 {
-		c.LostAnchor(R4, fmt.Sprintf("tag lister func(*resolver.Memory, string, func([]string) error) in ~/content/oci (found %d)", len(cands)))
+		c.LostAnchor(R4, fmt.Sprintf("tag lister (ranges over map[string]Descriptor and calls its func([]string) error parameter) in ~/content/oci (found %d)", len(cands)))
 		return
 	}
 	f := cands[0]
